@@ -20,7 +20,7 @@ BODYTUS = [dict(file=f) for f in (VAL, STR, REC, BASIC, SWAP, 'dbus/dbus-signatu
 for _i, _sig in enumerate(SWAP_CATALOGUE):
     _n = 6 if 'g' in _sig else (12 if (any(c in _sig for c in 'so') or _sig in ('a(yu)', 'a{yu}')) else 16)   # signature-typed content is validated by the (costly) signature validator
     for _le, _tier in (((_i % 2, 'quick'), (1 - _i % 2, 'thorough')) if _sig != 'aau' else ((0, 'thorough'), (1, 'thorough'))):   # aau: > 16 GB at any useful bound, thorough tier only
-        UNITS.append(dict(name='C02.swap.%s.%s%d' % (_sig, 'le' if _le else 'be', _n), props=['C02', 'C10'], kind='B', route='plain',
+        UNITS.append(dict(name='C02.swap.%s.%s%d' % (_sig, 'le' if _le else 'be', _n), props=['C02'], kind='B', route='plain',
                           tus=BODYTUS, harness='harness/c02_byteswap.c', extra_sources=[ASSERT, 'stubs/list_as_stack.c'],
                           defines=['VERIF_N=%d' % _n, 'VERIF_LE=%d' % _le, 'VERIF_SIG="%s"' % _sig], unwind=_n + 3, timeout=1800, tier=_tier, cbmc_flags=['--object-bits', '10'],
                           expect_s=30, trace_is_execution=True, replay_family='swap', replay_fn='%s:%d' % (_sig, _le),
